@@ -59,7 +59,7 @@ class Sim(object):
         w = case['world']
         Wd.build(self.root, w)
         K.reset(self.root, mounts=w.get('mounts', []), dirsalt=case.get('dirsalt', 0),
-                faults=case.get('faults', []), umask=case.get('umask', 0o022))
+                faults=case.get('faults', []), umask=case.get('umask', 0o022), devs=w.get('devs'))
         K.mount_order = w.get('mount_order')
         for m in K.mounts:
             if not os.path.isdir(self.root + m) or os.path.islink(self.root + m):
